@@ -395,7 +395,7 @@ def _concat(model, res, c, g, acts, opaque):
                               % (tl, tr, want, '; '.join(H.describe(outs))), case=case, func=f.name)
 
 
-def _to_number(model, res, opaque):
+def _to_number(model, res, opaque, R='R9'):
     cands = [(m, m.functions['to_number']) for m in model.modules.values() if 'to_number' in m.functions]
     if not cands:
         raise AnalysisError('to_number not found (anchor vanished)')
@@ -410,9 +410,9 @@ def _to_number(model, res, opaque):
             ok = len(outs) == 1 and outs[0].kind == 'return' and isinstance(outs[0].value, ListV)
         else:
             ok = len(outs) == 1 and outs[0].kind == 'return' and isinstance(outs[0].value, Sym) and outs[0].value.name == 'x'
-        res.ob('R9', 'to_number', {'value': tag}, ok, H.describe(outs))
+        res.ob(R, 'to_number', {'value': tag}, ok, H.describe(outs))
         if not ok:
-            res.violation('R9', 'to_number:%s' % tag, where, 'to_number must return a %s operand unchanged; got %s' % (tag, '; '.join(H.describe(outs))),
+            res.violation(R, 'to_number:%s' % tag, where, 'to_number must return a %s operand unchanged; got %s' % (tag, '; '.join(H.describe(outs))),
                           func='to_number')
     outs = H.run_function(model, fv, lambda: [Sym('str', 'x')], opaque=opaque)
     sig = []
@@ -426,9 +426,9 @@ def _to_number(model, res, opaque):
             sig.append(('other:%r' % (o,), ()))
     want = [('int', (('int', True),)), ('float', (('int', False), ('float', True))), ('same', (('int', False), ('float', False)))]
     ok = sorted(sig) == sorted(want) and not any(o.imprecise for o in outs)
-    res.ob('R9', 'to_number', {'value': 'text'}, ok, H.describe(outs))
+    res.ob(R, 'to_number', {'value': 'text'}, ok, H.describe(outs))
     if not ok:
-        res.violation('R9', 'to_number:text', where,
+        res.violation(R, 'to_number:text', where,
                       'to_number on text must be: int(text) if that parses, else float(text) if that parses, else the text unchanged '
                       '(exact integers first; nothing pre-filtered). Got: %s' % '; '.join(H.describe(outs)), func='to_number')
 
